@@ -224,3 +224,141 @@ def enum_values(prog, q):
     if e is None:
         raise AnalysisBroken('enum %s not found' % q)
     return {c['n']: c['v'] for c in e['consts']}
+
+
+# ---- P12 affine conservation --------------------------------------------------------------------------------------------
+class Affine:
+    """affine expression over symbols: {symbol: coefficient}; the symbol 1 is the constant term"""
+    __slots__ = ('c',)
+
+    def __init__(self, c=None):
+        self.c = {k: v for k, v in (c or {}).items() if v != 0}
+
+    @staticmethod
+    def const(v):
+        return Affine({1: v})
+
+    @staticmethod
+    def sym(s):
+        return Affine({s: 1})
+
+    def __add__(self, o):
+        c = dict(self.c)
+        for k, v in o.c.items():
+            c[k] = c.get(k, 0) + v
+        return Affine(c)
+
+    def __sub__(self, o):
+        c = dict(self.c)
+        for k, v in o.c.items():
+            c[k] = c.get(k, 0) - v
+        return Affine(c)
+
+    def scale(self, f):
+        return Affine({k: v * f for k, v in self.c.items()})
+
+    def is_zero(self):
+        return not self.c
+
+    def is_const(self):
+        return all(k == 1 for k in self.c)
+
+    def __eq__(self, o):
+        return isinstance(o, Affine) and self.c == o.c
+
+    def __hash__(self):
+        return hash(tuple(sorted(self.c.items(), key=repr)))
+
+    def __repr__(self):
+        if not self.c:
+            return '0'
+        parts = []
+        for k, v in sorted(self.c.items(), key=lambda kv: repr(kv[0])):
+            name = '' if k == 1 else (ex.pretty(k[1]) + "'" * 0 if isinstance(k, tuple) and k[0] == 'init' else
+                                      ('<%s#%d>' % (ex.pretty(k[1]), k[2]) if isinstance(k, tuple) and k[0] == 'opaque' else str(k)))
+            if k == 1:
+                parts.append('%+g' % v)
+            elif v == 1:
+                parts.append('+' + name)
+            elif v == -1:
+                parts.append('-' + name)
+            else:
+                parts.append('%+g*%s' % (v, name))
+        s = ' '.join(parts)
+        return s[1:] if s.startswith('+') else s
+
+
+class AffineInterp:
+    """evaluates the events of one (interprocedural, by-value) path over affine expressions.
+    env maps lvalue normal forms to Affine; reading an unassigned lvalue yields the symbol ('init', lvalue)."""
+
+    def __init__(self):
+        self.env = {}
+        self.nopaque = 0
+        self.opaque_memo = {}
+
+    def fresh(self, nf):
+        self.nopaque += 1
+        return Affine.sym(('opaque', nf, self.nopaque))
+
+    def read(self, lv):
+        v = self.env.get(lv)
+        if v is None:
+            v = Affine.sym(('init', lv))
+        return v
+
+    def eval(self, t):
+        k = t[0]
+        if k == 'int':
+            return Affine.const(t[1])
+        if k == 'float' and float(t[1]).is_integer():
+            return Affine.const(int(t[1]))
+        if k in ('field', 'var'):
+            return self.read(t)
+        if k == 'cast':
+            return self.eval(t[2])
+        if k == 'conv':
+            return self.eval(t[2])
+        if k == 'bin':
+            op = t[1]
+            if op == '+':
+                return self.eval(t[2]) + self.eval(t[3])
+            if op == '-':
+                return self.eval(t[2]) - self.eval(t[3])
+            if op == '*':
+                a, b = self.eval(t[2]), self.eval(t[3])
+                if a.is_const():
+                    return b.scale(a.c.get(1, 0))
+                if b.is_const():
+                    return a.scale(b.c.get(1, 0))
+        if k == 'un' and t[1] == '-':
+            return self.eval(t[2]).scale(-1)
+        # anything else is an opaque value; the same term evaluated in the same state denotes the same value
+        key = (t, tuple(sorted(((repr(a), repr(b)) for a, b in self.env.items() if mentions_any(t, a)))))
+        v = self.opaque_memo.get(key)
+        if v is None:
+            v = self.fresh(t)
+            self.opaque_memo[key] = v
+        return v
+
+    def step(self, ev):
+        if ev.kind == 'assign':
+            if ev.op == '=':
+                self.env[ev.lhs] = self.eval(ev.rhs)
+            elif ev.op == '+=':
+                self.env[ev.lhs] = self.read(ev.lhs) + self.eval(ev.rhs)
+            elif ev.op == '-=':
+                self.env[ev.lhs] = self.read(ev.lhs) - self.eval(ev.rhs)
+            else:
+                self.env[ev.lhs] = self.fresh(('bin', ev.op, ev.lhs, ev.rhs))
+        elif ev.kind == 'incdec':
+            d = Affine.const(1 if ev.op == '++' else -1)
+            self.env[ev.lhs] = self.read(ev.lhs) + d
+        elif ev.kind == 'enter' and ev.lhs:
+            vals = [self.eval(a) for a in ev.args]
+            for pv, val in zip(ev.lhs, vals):
+                self.env[pv] = val
+
+
+def mentions_any(t, lv):
+    return ex.mentions(t, lv)
